@@ -15,7 +15,8 @@ HEADER_RE = re.compile(
 PAYLOADS = [b'', b'x', b'line of text', b'-- a/file', b'++ b/file',
             b'@@ -1 +1 @@', b' leading space', b'\ttab', b'+', b'-', b' ',
             b'\\ No newline at end of file', b'#.change:', b'diff --git a b',
-            b'\xc3\xa9 caf\xc3\xa9', b'tail ', b'@@']
+            b'\xc3\xa9 caf\xc3\xa9', b'tail ', b'@@', b'form\x0cfeed', b'vt\x0bx',
+            b'fs\x1cx', b'lone\rcr', b'y' * 1500]
 GARBAGE = [b'diff --git a/x b/x', b'index 123..456 100644', b'--- a/x',
            b'+++ b/x', b'', b'Index: x', b'=====', b'@@ not a header @@',
            b'@@ -1 +1', b'@@', b'\\ No newline at end of file',
